@@ -22,7 +22,9 @@ OBLIGATIONS = ["NiftyVerif.C14." + t for t in (
     "qe_consistent", "qe_at_consistent", "cg_grad_invariant", "cg_value_correct",
     "ctrl_converged_criterion", "ctrl_start_converged_criterion", "ctrl_count_sound",
     "gradnorm_ctrl_sound", "gradinf_ctrl_sound", "deltaE_ctrl_sound", "absdeltaE_ctrl_sound", "stochastic_ctrl_sound",
-    "cg_controller_replay", "cg_verdict_sound", "cg_gradnorm_sound",
+    "norm_comparisons_sqrt_free",
+    "cg_controller_replay", "cg_verdict_sound", "cg_ctrl_sound", "cg_gradnorm_sound", "cg_gradinf_sound",
+    "cg_deltaE_sound", "cg_absdeltaE_sound", "cg_stochastic_sound",
     "cg_alpha_positive_or_error", "cg_no_error_spd", "cg_energy_monotone",
     "ie_modes_available", "inversion_enabler_direct", "inversion_enabler_solves")]
 RULE = ("cases: (qe) QuadraticEnergy at/at_with_grad on integer systems, exact; (ctrl) each of the 5 controllers fed "
@@ -598,10 +600,10 @@ def run(ctx):
     cases += [gen.ctrl_case(rng) for _ in range(ctx.n(500, 6000))]
     cases += gen.cg_exact_cases(rng, ctx.n(24, 120))
     cases += gen.cg_error_cases(rng, ctx.n(24, 120))
-    cases += [gen.cg_case(rng, nmax=8) for _ in range(ctx.n(150, 1200))]
+    cases += [gen.cg_case(rng, nmax=8) for _ in range(ctx.n(150, 900))]
     if not ctx.quick:
-        cases += [gen.cg_case(rng, nmax=40, nmin=9) for _ in range(60)]
-    cases += gen.ie_cases(rng, ctx.n(160, 1200))
+        cases += [gen.cg_case(rng, nmax=40, nmin=9) for _ in range(48)]
+    cases += gen.ie_cases(rng, ctx.n(160, 900))
     _dispatch(ctx, cases)
 
 
